@@ -902,3 +902,55 @@ Qed.
 Theorem mpcc_check g ms sh :
   valid_graph g = true -> (ms = 0 \/ 2 <= ms) -> valid_sched g sh = true -> check g ms (mpcc g ms sh) = true.
 Proof. intros Hg Hms V. apply (check_spec g ms _ Hg). apply mpcc_spec; auto. Qed.
+
+(* ================================================================== 11. corollaries in the vocabulary of the property *)
+(* the caller's graph is returned with the same vertices and the same edges, whatever the inputs *)
+Theorem mpcc_graph_unchanged g ms sh :
+  o_nodes (mpcc g ms sh) = g_nodes g /\ map fst (o_rows (mpcc g ms sh)) = g_edges g.
+Proof.
+  split; [reflexivity|]. unfold mpcc, mpcc_core, rows_of_cover. cbn [o_rows]. rewrite map_map. cbn. apply map_id.
+Qed.
+
+(* every outcome of shuffling the model's own enumeration is a valid schedule *)
+Theorem perm_enumeration_valid g sh :
+  valid_graph g = true -> Permutation sh (all_cliques g) -> valid_sched g sh = true.
+Proof.
+  intros Hg P. rewrite (valid_sched_perm g sh (all_cliques g) P). apply own_enumeration_valid.
+  apply valid_graph_spec; auto.
+Qed.
+
+Theorem mpcc_spec_all_shuffles g ms sh :
+  valid_graph g = true -> (ms = 0 \/ 2 <= ms) -> Permutation sh (all_cliques g) -> Spec g ms (mpcc g ms sh).
+Proof. intros Hg Hms P. apply mpcc_spec; auto. apply perm_enumeration_valid; auto. Qed.
+
+Section Cover.
+  Variable g : graph.
+  Variable ms : nat.
+  Variable sh : list (list nat).
+  Hypothesis Hg : valid_graph g = true.
+  Hypothesis Hms : ms = 0 \/ 2 <= ms.
+  Hypothesis Hsh : valid_sched g sh = true.
+  Let cover := mpcc_cover g ms (mpcc_order sh).
+
+  Lemma sched_good : GoodOrder g (mpcc_order sh).
+  Proof. apply valid_sched_good; auto. apply valid_graph_spec; auto. Qed.
+
+  (* accepted entries are cliques of g within the size limit *)
+  Theorem mpcc_cover_cliques c : In c cover -> CliqueP g c /\ Within ms (length c).
+  Proof. apply (cover_member g ms _ sched_good). Qed.
+
+  (* accepted cliques are pairwise edge-disjoint *)
+  Theorem mpcc_cover_disjoint i j a b :
+    nth_error cover i = Some a -> nth_error cover j = Some b -> i <> j -> edge_disjoint a b.
+  Proof. apply (cover_disjoint g ms _ sched_good). Qed.
+
+  (* every edge of g lies in exactly one accepted clique *)
+  Theorem mpcc_cover_exact u v : adj (g_edges g) u v = true ->
+    exists i c, nth_error cover i = Some c /\ inpair c u v /\
+      forall j b, nth_error cover j = Some b -> inpair b u v -> j = i /\ b = c.
+  Proof. apply (cover_exact g ms _ (proj1 (valid_graph_spec g) Hg) Hms sched_good). Qed.
+
+  (* every edge of the working copy has been claimed when the loop ends *)
+  Theorem mpcc_working_copy_empty u v : adj (fst (greedy ms (g_edges g) (mpcc_order sh))) u v = false.
+  Proof. apply (working_copy_empty g ms _ (proj1 (valid_graph_spec g) Hg) Hms sched_good). Qed.
+End Cover.
